@@ -146,6 +146,12 @@ M = [
  ("plain_append ends a name with its label count", D + 'name.rs', "            out.write_all(&label.data)?;\n        }\n\n        out.write_all(&[0])?;\n        Ok(())\n    }\n\n    fn compress_append", "            out.write_all(&label.data)?;\n        }\n\n        out.write_all(&[self.labels.len() as u8 & 0])?;\n        Ok(())\n    }\n\n    fn compress_append", 'untied:name.write'),
  ("names shown with a trailing-dot style separator", D + 'name.rs', "                f.write_str(\".\")?;", "                f.write_str(\". \")?;", 'fail:name_display_source'),
  ("labels shown with their dots quoted", D + 'name.rs', "        f.write_str(&String::from_utf8_lossy(&self.data))", "        f.write_str(&String::from_utf8_lossy(&self.data).replace('.', \"\\\\.\"))", 'untied:name.display'),
+ ("TXT attributes: the last occurrence of a key wins", D + 'rdata/txt.rs', "            attributes.entry(key).or_insert(value);", "            attributes.insert(key, value);", 'fail:txt_api_source'),
+ ("TXT attributes split at a colon", D + 'rdata/txt.rs', "char_str.data.splitn(2, |c| *c == b'=')", "char_str.data.splitn(2, |c| *c == b':')", 'fail:txt_api_source'),
+ ("TXT from a map joins with a colon", D + 'rdata/txt.rs', 'format!("{}={}", &key, &value)', 'format!("{}:{}", &key, &value)', 'fail:txt_api_source'),
+ ("TXT from text in chunks of 255", D + 'rdata/txt.rs', "chunks(MAX_CHARACTER_STRING_LENGTH - 1)", "chunks(MAX_CHARACTER_STRING_LENGTH)", 'fail:txt_api_source'),
+ ("TXT from a map swallows an overlong entry", D + 'rdata/txt.rs', "                None => txt.add_char_string(key.try_into()?),", "                None => { if let Ok(k) = key.try_into() { txt.add_char_string(k) } }", 'untied:txt.api'),
+ ("TXT long_attributes keeps parts with an empty key", D + 'rdata/txt.rs', "            if !key.is_empty() {\n                attributes.entry(key.to_owned()).or_insert(value);\n            }", "            attributes.entry(key.to_owned()).or_insert(value);", 'untied:txt.api'),
  ("mdns refresh in millis", 'simple-mdns/src/resource_record_manager.rs', 'added + Duration::from_secs(ttl / 2)', 'added + Duration::from_millis(ttl / 2)', 'untied:mdns.expiration'),
 ]
 
@@ -153,7 +159,7 @@ def lean_env():
     e = lambda *a: subprocess.run(['lake', 'env', *a], cwd=LEAN_DIR, capture_output=True, text=True).stdout.strip()
     return e('which', 'lean'), e('printenv', 'LEAN_PATH')
 
-TIES = ['TieEnv', 'TieEnvName', 'TieEnvMdns']
+TIES = ['TieEnv', 'TieEnvName', 'TieEnvMdns', 'TieEnvTxt']
 
 def tie_fails(lean, lean_path, tmp, generated):
     """None if the three envelope modules (TieEnv, TieEnvName, TieEnvMdns) check against `generated`, else the name of the first theorem that fails"""
